@@ -11,7 +11,6 @@ from . import values as V
 from .values import Sym, Cx, Opaque, StrV, Unsupported, VerifError
 from .heap import Ref, ListV, DictV, ArrV, ObjV, Closure, Builtin
 from .engine import Engine, State, Outcome, number_loops, _Raised
-from .loops import norm_clauses
 
 _parse_cache = {}
 
@@ -50,37 +49,7 @@ def eval_text(eng, st, fid, text, extra=None):
     return eng.deref(st, v)
 
 
-class Unit:
-    """one function under contract"""
-
-    def __init__(self, id, module, func, props, params=None, ghosts=None, requires=None, ensures=None, loops=None, raises=None, setup=None, returns=None, modifies=None, cites=None, notes=None, inline=None, post_hook=None, assumes=None, call_post=None, opts=None, sampler=None, runtime=None, kind="function"):
-        self.id = id
-        self.module = module
-        self.func = func
-        self.props = list(props)
-        self.params = params or {}
-        self.ghosts = ghosts or {}
-        self.requires = norm_clauses(requires)
-        self.ensures = norm_clauses(ensures)
-        self.loops = loops or {}
-        self.raises = raises or {}
-        self.setup = setup
-        self.returns = returns
-        self.modifies = modifies or []
-        self.cites = cites or []
-        self.notes = notes
-        self.inline = inline or []
-        self.post_hook = post_hook
-        self.assumes = norm_clauses(assumes)
-        self.call_post = call_post
-        self.opts = opts or {}
-        self.sampler = sampler
-        self.runtime = runtime
-        self.kind = kind
-
-    @property
-    def key(self):
-        return f"{self.module}:{self.func}"
+from .unitdef import Unit, norm_clauses  # noqa: E402,F401
 
 
 def make_value(eng, st, name, decl, genv):
@@ -129,11 +98,14 @@ def prove_unit(eng: Engine, unit: Unit, prop: str):
     fnode = mod.functions[unit.func]
     eng.loop_ord = number_loops(fnode)
     eng.loop_specs = dict(unit.loops)
+    if unit.opts.get("lazy_loops"):
+        eng.loop_specs.update(unit.opts["lazy_loops"](mod))
     declared = set(eng.loop_specs)
     present = set(eng.loop_ord.values())
     for k in declared - present:
         raise Unsupported(f"contract of {unit.id} names loop {k!r} which is not in the source (loops: {sorted(present)})")
     eng.merge_paths = unit.opts.get("merge", True)
+    eng.sat_level = unit.opts.get("sat_level", 0)
     st = State()
     fid = eng.new_frame(st, parent=None, module=mod)
     genv = {}
@@ -147,6 +119,8 @@ def prove_unit(eng: Engine, unit: Unit, prop: str):
     a = fnode.args
     eng._cur_vars = st.frames[fid]["vars"]
     pnames = [p.arg for p in a.posonlyargs + a.args + a.kwonlyargs]
+    # contract declaration order first (array dimensions may name other parameters)
+    pnames = [p for p in unit.params if p in pnames] + [p for p in pnames if p not in unit.params]
     for p in pnames:
         if p in st.frames[fid]["vars"]:
             continue
